@@ -7,3 +7,4 @@ INVARIANT DepsIntact
 INVARIANT SameShape
 INVARIANT RenamingFunction
 INVARIANT AsAsked
+INVARIANT InputsUnchanged
